@@ -10,7 +10,7 @@ use std::path::PathBuf;
 use std::process::{Child, ChildStdin, ChildStdout, Command, Stdio};
 use std::time::{Duration, Instant};
 
-use crate::wire::{parse_hello, Hello};
+use super::wire::{parse_hello, Hello};
 
 pub const MODES: [&str; 6] = ["dyn-debug", "static-release", "pie-debug", "dyn-release", "static-debug", "pie-release"];
 
